@@ -8,7 +8,7 @@ CONSTANTS
   MaxTests = 1
   MaxRuns = 1
   MaxTagOps = 0
-  MaxTimes = 3
+  MaxTimes = 2
   AllowStop = FALSE
   AllowSetFF = FALSE
   AllowSkipNoStart = FALSE
